@@ -27,6 +27,10 @@ func blsRun(args []string) int {
 		fmt.Fprintln(os.Stderr, err)
 		return 2
 	}
+	if err := ref.SelfTestH2C(); err != nil {
+		fmt.Fprintln(os.Stderr, err)
+		return 2
+	}
 	var jobs []blsJob
 	if err := readLines(*in, func(b []byte) error {
 		var j blsJob
